@@ -8,6 +8,32 @@ from . import speccheck
 PROP = "C07"
 
 
+def refusal_stream(v, findings):
+    """the refusals of the property (grouped operand, different visible column names - also when one side shows a superset of the
+    other's columns) behind random row-level histories, on both backends: the verb call itself raises ValueError"""
+    from . import prog as P
+    from . import reject
+
+    n = 60 if v.tier == "quick" else 1500
+    bad, rules = [], {}
+    for i in range(n):
+        r = reject.build(v.seed * 1_000_003 + i, only=("union_",))
+        if r is None:
+            continue
+        p, oid, exp, rule = r
+        rules["/".join(rule)] = rules.get("/".join(rule), 0) + 1
+        for be in ("polars", "sqlite"):
+            o = next(x for x in P.run_program(p, be) if x["id"] == oid)
+            if not (o["outcome"] == "error" and o["exc"] in exp):
+                bad.append((p, dict(kind="wrong_rejection", rule=list(rule), backend=be, outcome=o["outcome"], exc=o.get("exc"), expected=exp)))
+    by = {}
+    for p, d in bad:
+        by.setdefault((d["rule"][0], d["rule"][1]), []).append(dict(program=p, **d))
+    for key, items in by.items():
+        v.violation("refusal-" + "-".join(key), dict(kind="wrong_rejection", rule=list(key), n_cases=len(items), cases=items[:3], how="harness/c07.py:refusal_stream"))
+    return len(by), dict(union_refusal_rules=rules)
+
+
 def run(tier, seed):
-    return speccheck.run(PROP, tier, seed, ["union", "union", "scen_union_const", "scen_union_distinct", "scen_union_agg_right", "join", "union", "general"], 300, 10000, also=("C01",),
+    return speccheck.run(PROP, tier, seed, ["union", "union", "scen_union_const", "scen_union_distinct", "scen_union_agg_right", "join", "union", "general"], 300, 10000, also=("C01",), extra_stream=refusal_stream,
                          assumptions=["different-backend unions cannot be expressed within one program run; that refusal is not exercised"])
